@@ -1,4 +1,652 @@
 package main
 
-func cmdCheck(args []string) int  { return 2 }
-func cmdReplay(args []string) int { return 2 }
+import (
+	"encoding/json"
+	"flag"
+	"fmt"
+	"go/types"
+	"math/rand"
+	"os"
+	"path/filepath"
+	"runtime"
+	"sort"
+	"strconv"
+	"strings"
+	"time"
+
+	"golang.org/x/tools/go/ssa"
+)
+
+type RegHarness struct {
+	Name       string           `json:"name"`
+	Target     string           `json:"target"` // v5 | legacy | cmd
+	Quick      []map[string]int `json:"quick"`
+	Thorough   []map[string]int `json:"thorough"`
+	Witnesses  []string         `json:"witnesses"`
+	MapReverse bool             `json:"map_reverse_in_thorough"`
+	Bound      string           `json:"bound"`
+}
+
+type RegProp struct {
+	Harnesses   []RegHarness `json:"harnesses"`
+	Anchors     []string     `json:"anchors"` // function names (substring match on ssa function string) for coverage
+	MinCover    float64      `json:"min_anchor_cover"`
+	Assumptions []string     `json:"assumptions"`
+	Outside     []string     `json:"outside_bound"`
+	QuickTime   string       `json:"quick_time"`
+	ThorTime    string       `json:"thorough_time"`
+}
+
+type KnownFinding struct {
+	Status   string `json:"status"` // open | fixed
+	ID       string `json:"id,omitempty"`
+	Property string `json:"property"`
+	Commit   string `json:"commit,omitempty"`
+	What     string `json:"what"`
+	Class    string `json:"class,omitempty"`
+}
+
+func loadRegistry() (map[string]RegProp, error) {
+	b, err := os.ReadFile(filepath.Join(harnessDir(), "registry.json"))
+	if err != nil {
+		return nil, err
+	}
+	reg := map[string]RegProp{}
+	if err := json.Unmarshal(b, &reg); err != nil {
+		return nil, fmt.Errorf("registry.json: %v", err)
+	}
+	return reg, nil
+}
+
+func loadKnown() (map[string]KnownFinding, error) {
+	b, err := os.ReadFile(filepath.Join(verifDir, "known_findings.json"))
+	if err != nil {
+		if os.IsNotExist(err) {
+			return map[string]KnownFinding{}, nil
+		}
+		return nil, err
+	}
+	var l []KnownFinding
+	if err := json.Unmarshal(b, &l); err != nil {
+		return nil, err
+	}
+	m := map[string]KnownFinding{}
+	for _, k := range l {
+		if k.Status == "open" && k.ID != "" {
+			m[k.ID] = k
+		}
+	}
+	return m, nil
+}
+
+func paramLabel(p map[string]int) string {
+	var ks []string
+	for k := range p {
+		ks = append(ks, k)
+	}
+	sort.Strings(ks)
+	var parts []string
+	for _, k := range ks {
+		parts = append(parts, k+"="+strconv.Itoa(p[k]))
+	}
+	return strings.Join(parts, ",")
+}
+
+type evidence struct {
+	PropertyID  string                 `json:"property_id"`
+	Tier        string                 `json:"tier"`
+	Seed        int                    `json:"seed"`
+	Level       string                 `json:"level"`
+	Coverage    map[string]interface{} `json:"coverage"`
+	Assumptions []string               `json:"assumptions"`
+	WallS       float64                `json:"wall_s"`
+	Violations  int                    `json:"violations"`
+}
+
+func cmdCheck(args []string) int {
+	fs := flag.NewFlagSet("check", flag.ExitOnError)
+	repo := fs.String("repo", "/repo", "repository root")
+	prop := fs.String("prop", "", "property id")
+	tier := fs.String("tier", "quick", "quick | thorough")
+	workers := fs.Int("workers", runtime.NumCPU(), "workers")
+	only := fs.String("only", "", "restrict to harnesses whose name contains this")
+	noEvidence := fs.Bool("no-evidence", false, "do not write the evidence file (development)")
+	verbose := fs.Bool("v", false, "verbose")
+	fs.Parse(args)
+	if t := os.Getenv("VERIF_TIER"); t == "quick" || t == "thorough" {
+		*tier = t
+	}
+	seed := 0
+	if s := os.Getenv("VERIF_SEED"); s != "" {
+		seed, _ = strconv.Atoi(s)
+	}
+	t0 := time.Now()
+	id := *prop
+	inconclusive := func(reason string) int {
+		fmt.Printf("INCONCLUSIVE property=%s reason=%s\n", id, reason)
+		return 2
+	}
+	reg, err := loadRegistry()
+	if err != nil {
+		return inconclusive(err.Error())
+	}
+	rp, ok := reg[id]
+	if !ok {
+		return inconclusive("no such property in registry")
+	}
+	known, err := loadKnown()
+	if err != nil {
+		return inconclusive("known_findings.json: " + err.Error())
+	}
+	limit := 10 * time.Minute
+	ts := rp.QuickTime
+	if *tier == "thorough" {
+		limit = 60 * time.Minute
+		ts = rp.ThorTime
+	}
+	if ts != "" {
+		if d, err := time.ParseDuration(ts); err == nil {
+			limit = d
+		}
+	}
+	deadline := t0.Add(limit)
+
+	// group harness instances by target
+	type inst struct {
+		rh     RegHarness
+		params map[string]int
+		label  string
+	}
+	byTarget := map[string][]inst{}
+	var targets []string
+	for _, rh := range rp.Harnesses {
+		if *only != "" && !strings.Contains(rh.Name, *only) {
+			continue
+		}
+		ps := rh.Quick
+		if *tier == "thorough" && rh.Thorough != nil {
+			ps = rh.Thorough
+		}
+		if len(ps) == 0 {
+			ps = []map[string]int{{}}
+		}
+		tg := rh.Target
+		if tg == "" {
+			tg = "v5"
+		}
+		if _, ok := byTarget[tg]; !ok {
+			targets = append(targets, tg)
+		}
+		for _, p := range ps {
+			l := rh.Name
+			if len(p) > 0 {
+				l += "(" + paramLabel(p) + ")"
+			}
+			byTarget[tg] = append(byTarget[tg], inst{rh, p, l})
+			if *tier == "thorough" && rh.MapReverse {
+				byTarget[tg] = append(byTarget[tg], inst{rh, p, l + "[map-reverse]"})
+			}
+		}
+	}
+	if len(targets) == 0 {
+		return inconclusive("no harness selected")
+	}
+
+	cov := map[string]interface{}{}
+	var allIncomplete []string
+	var violations []string
+	var knownSeen = map[string]bool{}
+	var unconfirmed []string
+	states, transitions, validated, xmismatch := 0, 0, 0, 0
+	var samples []interface{}
+	perHarness := map[string]interface{}{}
+	queries := QStats{}
+	var solverTime time.Duration
+	solverCalls := 0
+	funcsEncoded := map[string]bool{}
+	anchorCover := map[string]string{}
+	witnessesAll := map[string]int{}
+	replayDir := filepath.Join(verifDir, "evidence", "replays")
+	os.MkdirAll(replayDir, 0o755)
+	// remove stale replays of this property
+	if old, _ := filepath.Glob(filepath.Join(replayDir, id+"-*.json")); old != nil {
+		for _, f := range old {
+			os.Remove(f)
+		}
+	}
+	nReplay := 0
+	rng := rand.New(rand.NewSource(int64(seed)))
+
+	for _, tg := range targets {
+		ld, err := loadTarget(*repo, tg)
+		if err != nil {
+			if ld != nil {
+				ld.cleanup()
+			}
+			return inconclusive("HARNESS-BUILD-ERROR " + strings.ReplaceAll(err.Error(), "\n", " | "))
+		}
+		cfg := RunConfig{Workers: *workers, Budget: 5_000_000, Solver: "z3-new", TimeoutMs: 20000, CapConc: 64, KeepPaths: 12, Verbose: *verbose,
+			Props: map[string]bool{id: true}, Deadline: deadline}
+		if *tier == "thorough" {
+			cfg.Cross = "cvc5"
+			cfg.KeepPaths = 40
+		}
+		var fns []*ssa.Function
+		insts := byTarget[tg]
+		for _, in := range insts {
+			fn := ld.findHarness(in.rh.Name)
+			if fn == nil {
+				ld.cleanup()
+				return inconclusive("HARNESS-BUILD-ERROR no harness function " + in.rh.Name)
+			}
+			fns = append(fns, fn)
+			cfg.Harnesses = append(cfg.Harnesses, HarnessSpec{Name: in.label, Fn: fn, Params: in.params, MapReverse: strings.HasSuffix(in.label, "[map-reverse]"), Witnesses: in.rh.Witnesses})
+		}
+		// anchor functions for block coverage
+		cfg.CoverFns = map[*ssa.Function]bool{}
+		for _, p := range ld.prog.AllPackages() {
+			if !strings.HasPrefix(p.Pkg.Path(), "github.com/evanphx/json-patch") {
+				continue
+			}
+			for fn := range ssaFuncsOf(p) {
+				for _, a := range rp.Anchors {
+					if strings.HasSuffix(fn.String(), a) {
+						cfg.CoverFns[fn] = true
+					}
+				}
+			}
+		}
+		res, err := explore(ld.Loaded, cfg)
+		if err != nil {
+			ld.cleanup()
+			return inconclusive("RUN-ERROR " + err.Error())
+		}
+		if *verbose {
+			printSummary(res)
+		}
+		for _, s := range res.Incomplete {
+			allIncomplete = append(allIncomplete, tg+": "+s)
+		}
+		if res.TimedOut {
+			allIncomplete = append(allIncomplete, tg+": time limit reached")
+		}
+		// native twin
+		tw, err := buildTwin(ld, fns, filepath.Join(verifDir, "bin", "twin-"+id+"-"+tg))
+		if err != nil {
+			ld.cleanup()
+			return inconclusive("HARNESS-BUILD-ERROR " + strings.ReplaceAll(err.Error(), "\n", " | "))
+		}
+		fnByLabel := map[string]*ssa.Function{}
+		nameByLabel := map[string]string{}
+		for k, in := range insts {
+			fnByLabel[in.label] = fns[k]
+			nameByLabel[in.label] = in.rh.Name
+		}
+		// cross-execution of sample passing paths
+		for label, recs := range res.Records {
+			rng.Shuffle(len(recs), func(a, b int) { recs[a], recs[b] = recs[b], recs[a] })
+			for _, r := range recs {
+				rf := &ReplayFile{Harness: nameByLabel[label], Target: tg, Pkg: fnByLabel[label].Pkg.Pkg.Path(), Vars: r.Vars, Params: r.Params}
+				nr, err := tw.run(rf.Pkg, rf, "")
+				if err != nil {
+					allIncomplete = append(allIncomplete, "native twin run failed: "+err.Error())
+					continue
+				}
+				validated++
+				if d := compareRecord(r, nr); d != "" {
+					xmismatch++
+					if len(unconfirmed) < 10 {
+						unconfirmed = append(unconfirmed, "cross-execution mismatch in "+label+": "+d)
+					}
+				}
+				if len(samples) < 6 {
+					samples = append(samples, map[string]interface{}{"harness": label, "vars": r.Vars, "observations": r.Obs, "witnesses": r.Reaches})
+				}
+			}
+		}
+		// confirmation of candidates (dedupe per harness+assert id: confirm up to 3 each)
+		confirm := func(c Candidate) (bool, *ReplayFile, *NativeResult) {
+			rf := &ReplayFile{Harness: nameByLabel[c.Harness], Target: tg, Pkg: fnByLabel[c.Harness].Pkg.Pkg.Path(), Vars: c.Vars, Params: c.Params,
+				Property: c.Property, AssertID: c.AssertID, Kind: c.Kind, Msg: c.Msg, Known: c.Known, Render: c.Render}
+			tries := 1
+			if strings.Contains(c.Harness, "map") {
+				tries = 8
+			}
+			var nr *NativeResult
+			for k := 0; k < tries; k++ {
+				var err error
+				nr, err = tw.run(rf.Pkg, rf, "")
+				if err != nil {
+					return false, rf, nil
+				}
+				if nr.Panic != "" {
+					return true, rf, nr
+				}
+				for _, f := range nr.Failed {
+					if f == c.AssertID {
+						return true, rf, nr
+					}
+				}
+				for _, f := range nr.Known {
+					if strings.HasPrefix(f, c.AssertID+"|") {
+						return true, rf, nr
+					}
+				}
+			}
+			return false, rf, nr
+		}
+		seenKey := map[string]int{}
+		for _, c := range res.Cands {
+			key := c.Harness + "|" + c.AssertID
+			seenKey[key]++
+			if seenKey[key] > 3 {
+				continue
+			}
+			ok, rf, nr := confirm(c)
+			rf.Native = nr
+			if !ok {
+				unconfirmed = append(unconfirmed, fmt.Sprintf("UNCONFIRMED candidate %s %s (does not reproduce natively)", c.Harness, c.AssertID))
+				nReplay++
+				writeJSON(filepath.Join(replayDir, fmt.Sprintf("%s-unconfirmed-%d.json", id, nReplay)), rf)
+				continue
+			}
+			nReplay++
+			path := filepath.Join(replayDir, fmt.Sprintf("%s-%d.json", id, nReplay))
+			writeJSON(path, rf)
+			violations = append(violations, path)
+			fmt.Printf("VIOLATION property=%s replay=%s\n", id, path)
+			fmt.Printf("  harness=%s assert=%s kind=%s msg=%s\n", c.Harness, c.AssertID, c.Kind, c.Msg)
+			for _, k := range sortedKeys(c.Render) {
+				fmt.Printf("    %s = %q\n", k, c.Render[k])
+			}
+		}
+		for _, c := range res.Known {
+			kf, listed := known[c.Known]
+			key := c.Harness + "|" + c.AssertID + "|" + c.Known
+			seenKey[key]++
+			if seenKey[key] > 2 {
+				continue
+			}
+			ok, rf, nr := confirm(c)
+			rf.Native = nr
+			if !ok {
+				unconfirmed = append(unconfirmed, fmt.Sprintf("UNCONFIRMED known-finding candidate %s %s %s", c.Harness, c.AssertID, c.Known))
+				continue
+			}
+			if !listed || kf.Property != id && !strings.Contains(kf.Property, id) {
+				// the harness refers to a finding that is not (or no longer) listed as open: a violation
+				nReplay++
+				path := filepath.Join(replayDir, fmt.Sprintf("%s-%d.json", id, nReplay))
+				writeJSON(path, rf)
+				violations = append(violations, path)
+				fmt.Printf("VIOLATION property=%s replay=%s\n", id, path)
+				fmt.Printf("  harness=%s assert=%s (finding %s is not listed as open)\n", c.Harness, c.AssertID, c.Known)
+				continue
+			}
+			if !knownSeen[c.Known] {
+				knownSeen[c.Known] = true
+				nReplay++
+				writeJSON(filepath.Join(replayDir, fmt.Sprintf("%s-known-%s.json", id, c.Known)), rf)
+				fmt.Printf("KNOWN-FINDING: property=%s %s: %s\n", id, c.Known, kf.What)
+			}
+		}
+		// aggregate
+		for label, hs := range res.PerHarness {
+			states += hs.Paths
+			transitions += hs.Decisions
+			perHarness[tg+":"+label] = hs
+			for k, v := range hs.Reaches {
+				witnessesAll[k] += v
+			}
+		}
+		for _, in := range insts {
+			hs := res.PerHarness[in.label]
+			for _, w := range in.rh.Witnesses {
+				if hs.Reaches[w] == 0 {
+					// a witness may be reached by another instance of the same harness
+					total := 0
+					for _, in2 := range insts {
+						if in2.rh.Name == in.rh.Name {
+							total += res.PerHarness[in2.label].Reaches[w]
+						}
+					}
+					if total == 0 {
+						allIncomplete = append(allIncomplete, fmt.Sprintf("VACUOUS: witness %s of %s not reached on any path", w, in.rh.Name))
+					}
+				}
+			}
+		}
+		queries.FeasSat += res.Q.FeasSat
+		queries.FeasUnsat += res.Q.FeasUnsat
+		queries.FeasUnknown += res.Q.FeasUnknown
+		queries.PropSat += res.Q.PropSat
+		queries.PropUnsat += res.Q.PropUnsat
+		queries.PropUnknown += res.Q.PropUnknown
+		queries.FrontEnd += res.Q.FrontEnd
+		queries.ModelHits += res.Q.ModelHits
+		solverTime += res.SolverTime
+		solverCalls += res.SolverQ
+		for f := range res.Called {
+			if f.Pkg != nil && strings.HasPrefix(f.Pkg.Pkg.Path(), "github.com/evanphx/json-patch") && !strings.Contains(f.Pkg.Pkg.Path(), "zzverif") {
+				funcsEncoded[f.String()] = true
+			}
+		}
+		for fn := range cfg.CoverFns {
+			hit := 0
+			for _, b := range fn.Blocks {
+				if res.Cover[b] {
+					hit++
+				}
+			}
+			anchorCover[fn.String()] = fmt.Sprintf("%d/%d blocks", hit, len(fn.Blocks))
+			if rp.MinCover > 0 && len(fn.Blocks) > 0 && float64(hit)/float64(len(fn.Blocks)) < rp.MinCover && hit == 0 {
+				allIncomplete = append(allIncomplete, "VACUOUS: anchor function never executed: "+fn.String())
+			}
+		}
+		for _, s := range res.SampleSMT {
+			if len(samples) < 9 {
+				if len(s) > 1500 {
+					s = s[:1500] + "…"
+				}
+				samples = append(samples, map[string]interface{}{"property_query_smt": s})
+			}
+		}
+		if xm := res.XDiff; xm > 0 {
+			allIncomplete = append(allIncomplete, fmt.Sprintf("%d solver disagreements", xm))
+		}
+		ld.cleanup()
+		os.RemoveAll(tw.dir)
+	}
+	if xmismatch > 0 {
+		allIncomplete = append(allIncomplete, fmt.Sprintf("%d cross-execution mismatches", xmismatch))
+	}
+	allIncomplete = append(allIncomplete, unconfirmed...)
+	sort.Strings(allIncomplete)
+
+	var fl []string
+	for f := range funcsEncoded {
+		fl = append(fl, f)
+	}
+	sort.Strings(fl)
+	if len(samples) == 0 {
+		samples = append(samples, map[string]interface{}{"note": "no passing path recorded"})
+	}
+	cov["states"] = states
+	cov["transitions"] = transitions
+	cov["traces_validated_against_impl"] = validated
+	cov["samples"] = samples
+	cov["rule"] = "states = completed symbolic paths (one per distinct sequence of solver-decided branch/shape decisions); transitions = decisions taken; every path covers all values of its symbolic variables that satisfy its path condition"
+	cov["functions_encoded"] = map[string]interface{}{"count": len(fl), "names": fl, "anchors": anchorCover}
+	cov["queries"] = map[string]interface{}{
+		"feasibility": map[string]int{"sat": queries.FeasSat, "unsat": queries.FeasUnsat, "unknown": queries.FeasUnknown},
+		"property":    map[string]int{"sat": queries.PropSat, "unsat": queries.PropUnsat, "unknown": queries.PropUnknown, "decided_concretely_on_path": queries.ModelHits},
+	}
+	cov["front_end_decisions"] = queries.FrontEnd
+	cov["solver_calls"] = solverCalls
+	cov["solver_time_s"] = round1(solverTime.Seconds())
+	cov["solver"] = "z3-new 5.1.0 (one persistent process per worker)"
+	if *tier == "thorough" {
+		cov["solver_crosscheck"] = "every property query also sent to cvc5 1.0.3"
+	} else {
+		cov["solver_crosscheck"] = "off (quick)"
+	}
+	cov["per_harness"] = perHarness
+	cov["witnesses"] = witnessesAll
+	var bounds []string
+	for _, rh := range rp.Harnesses {
+		if rh.Bound != "" {
+			bounds = append(bounds, rh.Name+": "+rh.Bound)
+		}
+	}
+	cov["bounds"] = bounds
+	cov["outside_bound"] = rp.Outside
+	cov["complete"] = len(allIncomplete) == 0
+	cov["incomplete_reasons"] = allIncomplete
+	var ks []string
+	for k := range knownSeen {
+		ks = append(ks, k)
+	}
+	sort.Strings(ks)
+	cov["known_findings_seen"] = ks
+	cov["exhaustive"] = false
+	ev := evidence{PropertyID: id, Tier: *tier, Seed: seed, Level: "model_checking", Coverage: cov, WallS: round1(time.Since(t0).Seconds()), Violations: len(violations)}
+	ev.Assumptions = append([]string{
+		"engine: gosx symbolic executor over go/ssa built from the working tree on this run; ints are 64-bit bit-vectors; heap shape, lengths and pointers are concrete per path",
+		"models instead of execution: reflect (type/value model over the interpreter heap), sync.Pool (LIFO, one goroutine), sync.Map/Once/Mutex/WaitGroup (sequential), fmt.Errorf/Sprintf (text opaque, %w chain kept), errors.Is/As (re-implemented over the real Unwrap/Is/As methods), internal/bytealg + strings/bytes Index/Count/IndexByte (semantic), strconv float parsing/printing (concrete only), strconv.Quote and quoteChar (message text only)",
+		"map iteration: insertion order (thorough: also reversed where registered); other orders are outside the bound",
+		"oracle correctness (validated separately by harness/h/*_test.go against RFC examples and the repository's expected values)",
+	}, rp.Assumptions...)
+	if !*noEvidence {
+		os.MkdirAll(filepath.Join(verifDir, "evidence"), 0o755)
+		writeJSON(filepath.Join(verifDir, "evidence", id+".json"), ev)
+	}
+	fmt.Printf("property=%s tier=%s paths=%d decisions=%d validated=%d violations=%d known=%d wall=%.1fs\n", id, *tier, states, transitions, validated, len(violations), len(knownSeen), time.Since(t0).Seconds())
+	if len(violations) > 0 {
+		return 1
+	}
+	if len(allIncomplete) > 0 {
+		for _, s := range allIncomplete {
+			if len(s) > 1200 {
+				s = s[:1200]
+			}
+			fmt.Printf("INCONCLUSIVE property=%s reason=%s\n", id, strings.ReplaceAll(s, "\n", " | "))
+		}
+		return 2
+	}
+	return 0
+}
+
+func ssaFuncsOf(p *ssa.Package) map[*ssa.Function]bool {
+	out := map[*ssa.Function]bool{}
+	var add func(f *ssa.Function)
+	add = func(f *ssa.Function) {
+		if f == nil || out[f] {
+			return
+		}
+		out[f] = true
+		for _, a := range f.AnonFuncs {
+			add(a)
+		}
+	}
+	for _, m := range p.Members {
+		switch m := m.(type) {
+		case *ssa.Function:
+			add(m)
+		case *ssa.Type:
+			for _, t := range []interface{}{m.Type()} {
+				_ = t
+			}
+			ms := p.Prog.MethodSets.MethodSet(m.Type())
+			for k := 0; k < ms.Len(); k++ {
+				add(p.Prog.MethodValue(ms.At(k)))
+			}
+			pms := p.Prog.MethodSets.MethodSet(typesPointer(m))
+			for k := 0; k < pms.Len(); k++ {
+				add(p.Prog.MethodValue(pms.At(k)))
+			}
+		}
+	}
+	return out
+}
+
+func round1(f float64) float64 { return float64(int(f*10+0.5)) / 10 }
+
+func sortedKeys(m map[string]string) []string {
+	var ks []string
+	for k := range m {
+		ks = append(ks, k)
+	}
+	sort.Strings(ks)
+	return ks
+}
+
+func writeJSON(path string, v interface{}) {
+	b, err := json.MarshalIndent(v, "", " ")
+	if err != nil {
+		fmt.Fprintln(os.Stderr, "writeJSON:", err)
+		return
+	}
+	os.WriteFile(path, append(b, '\n'), 0o644)
+}
+
+// cmdReplay re-runs a replay file against the natively compiled library.
+func cmdReplay(args []string) int {
+	fs := flag.NewFlagSet("replay", flag.ExitOnError)
+	repo := fs.String("repo", "/repo", "repository root")
+	fs.Parse(args)
+	if fs.NArg() != 1 {
+		fmt.Fprintln(os.Stderr, "usage: gosx replay [-repo /repo] <replay.json>")
+		return 2
+	}
+	b, err := os.ReadFile(fs.Arg(0))
+	if err != nil {
+		fmt.Fprintln(os.Stderr, err)
+		return 2
+	}
+	var rf ReplayFile
+	if err := json.Unmarshal(b, &rf); err != nil {
+		fmt.Fprintln(os.Stderr, err)
+		return 2
+	}
+	ld, err := loadTarget(*repo, rf.Target)
+	if err != nil {
+		fmt.Fprintln(os.Stderr, "LOAD-ERROR:", err)
+		return 2
+	}
+	defer ld.cleanup()
+	fn := ld.findHarness(rf.Harness)
+	if fn == nil {
+		fmt.Fprintln(os.Stderr, "no harness", rf.Harness)
+		return 2
+	}
+	dir, _ := os.MkdirTemp("", "gosx-replay-")
+	defer os.RemoveAll(dir)
+	tw, err := buildTwin(ld, []*ssa.Function{fn}, dir)
+	if err != nil {
+		fmt.Fprintln(os.Stderr, err)
+		return 2
+	}
+	rf.Native = nil
+	nr, err := tw.run(fn.Pkg.Pkg.Path(), &rf, "")
+	if err != nil {
+		fmt.Fprintln(os.Stderr, err)
+		return 2
+	}
+	out, _ := json.MarshalIndent(nr, "", " ")
+	fmt.Println(string(out))
+	for _, k := range sortedKeys(rf.Render) {
+		fmt.Printf("  %s = %q\n", k, rf.Render[k])
+	}
+	if nr.Panic != "" || len(nr.Failed) > 0 {
+		fmt.Println("REPRODUCED: the native run fails")
+		return 1
+	}
+	if len(nr.Known) > 0 {
+		fmt.Println("REPRODUCED (known finding): " + strings.Join(nr.Known, ","))
+		return 1
+	}
+	fmt.Println("not reproduced: the native run passes")
+	return 0
+}
+
+func typesPointer(m *ssa.Type) types.Type { return types.NewPointer(m.Type()) }
